@@ -189,6 +189,46 @@ def _r2(model, rep):
                 else:
                     raise AnalysisError(f"_init_bc: complement idiom "
                                         f"'{src(v)[:60]}' not in the table")
+    # the normalised index sets must be repeat-free: A[I][:, D] @ x[D]
+    # counts a repeated D twice, A[I][:, I] with a repeated I is singular
+    ff = model.func(U, "_flatten_dofs")
+    fl = model.cls("skfem.assembly.dofs", "DofsView").methods["flatten"]
+    fl_unique = all(isinstance(r.value, ast.Call) and model.dotted(
+        fl.module, r.value.func) == "numpy.unique"
+        for r in walk_no_nested(fl.node) if isinstance(r, ast.Return))
+    nret = 0
+    for r in walk_no_nested(ff.node):
+        if not isinstance(r, ast.Return) or r.value is None:
+            continue
+        v = r.value
+        if isinstance(v, ast.Constant) and v.value is None:
+            continue
+        nret += 1
+        cons = f"_flatten_dofs:return[{src(v)[:30]}]"
+        if isinstance(v, ast.Name):
+            rep.ok(R2, cons, "an index array is passed through as given")
+        elif isinstance(v, ast.Call) and model.dotted(ff.module, v.func) in (
+                "numpy.unique", "numpy.union1d"):
+            rep.ok(R2, cons, "several collections are merged through "
+                   "np.unique: no index is listed twice")
+        elif isinstance(v, ast.Call) and isinstance(v.func, ast.Attribute) \
+                and v.func.attr == "flatten" and fl_unique:
+            rep.ok(R2, cons, "DofsView.flatten() returns np.unique(...)")
+        elif isinstance(v, ast.Call) and model.dotted(ff.module, v.func) in (
+                "numpy.concatenate", "numpy.hstack", "numpy.append"):
+            rep.fail(R2, F, "_flatten_dofs", cons,
+                     f"'{src(v)[:60]}' joins several DOF collections without "
+                     f"removing repeats: a DOF contained in two of them "
+                     f"(a corner shared by two named boundaries) is listed "
+                     f"twice, so condense subtracts its column twice and a "
+                     f"kept set with repeats gives a singular block",
+                     r.lineno)
+        else:
+            raise AnalysisError(f"_flatten_dofs: return '{src(v)[:50]}' "
+                                f"not in the idiom table")
+    if nret < 3:
+        raise AnalysisError("_flatten_dofs: fewer than three non-None "
+                            "returns")
     # the return tuple and the call sites
     rets = [n for n in walk_no_nested(fn.node) if isinstance(n, ast.Return)]
     if len(rets) != 1 or not isinstance(rets[0].value, ast.Tuple):
@@ -704,6 +744,11 @@ MUTANTS = [
       "    idx = np.ones(count.sum(), dtype=np.int32)\n"
       "    idx[np.cumsum(count)[:-1]] -= count[:-1]\n"
       "    idx = np.repeat(start, count) + np.cumsum(idx) - 1\n"), "C05-R4"),
+    ("dictionary of views flattened without removing repeats",
+     (_U, "        return np.unique(\n            np.concatenate(["
+      "_flatten_helper(S, key) for key in S])\n        )",
+      "        return np.concatenate([_flatten_helper(S, key) for key in "
+      "S])"), "C05-R2"),
     ("penalize: penalty accumulated with possibly repeated D",
      (_U, "    d[D] = 1. / epsilon\n", "    d[np.asarray(D)] += 1. / epsilon"
       "\n"), None),
